@@ -31,6 +31,11 @@ Proof. reflexivity. Qed.
 Lemma gen_grid_start : grid_start = "self.box_grid[start_idx]".
 Proof. reflexivity. Qed.
 
+Lemma gen_cycle_pair :
+  cycle_nodes_def = "(list(molecule.search_tree.edges)[0][0], list(molecule.search_tree.edges)[-1][1])" /\
+  cycle_restraint_def = "(0.0, tolerance)".
+Proof. split; reflexivity. Qed.
+
 Lemma gen_search_tree_dfs : search_tree_dfs_true = "nx.dfs_tree" /\ search_tree_dfs_true_call = "nx.dfs_tree(self, source=self.root)".
 Proof. split; reflexivity. Qed.
 
